@@ -27,7 +27,7 @@ class RuleDef:
     text: str
     fn: object
     floor: int            # minimum number of instances confirmed by hand
-    tier: str = 'quick'   # 'quick' rules run always, 'thorough' only in thorough
+    tier: str = 'quick'   # 'quick' rules run always, 'thorough' only in thorough (and on self-test variants), 'deep' only on the analysed tree in thorough
 
 
 class Ctx:
@@ -77,8 +77,10 @@ def run_rules(prop, rules, model, tier='quick', only=None):
     for rd in rules:
         if only and rd.rid not in only:
             continue
-        if rd.tier == 'thorough' and tier != 'thorough':
+        if rd.tier == 'thorough' and tier not in ('thorough', 'selftest'):
             continue
+        if rd.tier == 'deep' and tier != 'thorough':
+            continue          # enumeration rules: run on the analysed tree in the thorough tier, not on self-test variants
         ctx._rule = rd.rid
         ctx.instances.setdefault(rd.rid, [])
         try:
